@@ -9,7 +9,13 @@ def c03Gen : Handler := fun j => do
   let decls := generate env
   return Json.mkObj [
     ("decls", Json.arr (decls.map fun (id, d) => Json.mkObj [("id", id), ("text", printDecl d)]).toArray),
-    ("closedOnce", Json.bool (closedOnce decls))]
+    ("closedOnce", Json.bool (closedOnce decls)),
+    ("closedReport", strs (
+      let byId := decls.foldl (fun acc (p : String × TsDecl) => if acc.any (·.1 == p.1) then acc else acc ++ [p]) []
+      let tenv := tsEnvOf byId
+      let names := tenv.map (·.1)
+      (tenv.flatMap fun (n, t) => ((tyNames t).filter fun m => !names.contains m).map fun m => "undeclared " ++ m ++ " (in " ++ n ++ ")") ++
+      (names.filter fun n => names.count n > 1).eraseDups.map fun n => "declared twice " ++ n))]
 
 partial def jsonToJVal : Json → JVal
   | .null => .null
